@@ -222,6 +222,17 @@ Fixpoint seqof_scan (any : bool) (ut : N) (uc : bool) (fuel : nat) (l : bytes) :
       end
   end.
 
+(* parseSequenceOf, second pass (asn1.go:651-657): the elements one after the other *)
+Fixpoint seqof_elems (pf : bytes -> option bytes) (rest : bytes) (fuel : nat) (l : bytes) : option bytes :=
+  match l with
+  | [] => Some rest
+  | _ =>
+      match fuel with
+      | O => None
+      | S f => match pf l with Some l' => seqof_elems pf rest f l' | None => None end
+      end
+  end.
+
 (* parseField: [Some rest] = accepted, the field ends where [rest] begins *)
 Fixpoint parse_field (s : schema) (opt : bool) (expl : option N) (bs : bytes) {struct s} : option bytes :=
   match locate s opt expl bs with
@@ -242,15 +253,7 @@ Fixpoint parse_field (s : schema) (opt : bool) (expl : option N) (bs : bytes) {s
           match utype e with
           | (any, ut, uc) =>
               if seqof_scan any ut uc (length inner) inner then
-                (fix elems (fuel : nat) (l : bytes) {struct fuel} : option bytes :=
-                   match l with
-                   | [] => Some rest
-                   | _ =>
-                       match fuel with
-                       | O => None
-                       | S f => match parse_field e false None l with Some l' => elems f l' | None => None end
-                       end
-                   end) (length inner) inner
+                seqof_elems (parse_field e false None) rest (length inner) inner
               else None
           end
       end
@@ -439,6 +442,48 @@ Definition is_mixed_pem (d : bytes) : bool :=
   | _, _ => false
   end.
 
+(* ================= well-formed objects of each kind ================= *)
+(* the children of the outer SEQUENCE; the element after the first one; the content of the first one *)
+Definition seq_inner (d : bytes) : option bytes :=
+  match locate (SSeq FNil) false None d with EIn inner _ => Some inner | _ => None end.
+Definition next (l : bytes) : bytes :=
+  match parse_header l with Some (h, after) => drop (N.to_nat (h_len h)) after | None => [] end.
+Definition content (l : bytes) : bytes :=
+  match parse_header l with Some (h, after) => take (N.to_nat (h_len h)) after | None => [] end.
+
+(* what the ASN.1 types say beyond what the Go structs check:
+   RSAPublicKey has exactly two elements; the DSA subprime q does not fit a Go int *)
+Definition side_cond (k : nat) (d : bytes) : bool :=
+  match seq_inner d with
+  | None => false
+  | Some inner =>
+      match k with
+      | 3%nat => match next (next inner) with [] => true | _ => false end
+      | 6%nat => Nat.ltb 8 (length (content (next (next inner))))
+      | _ => true
+      end
+  end.
+
+(* some byte is not a base64 character (true of every DER key: it contains a tag byte 02 or 06) *)
+Definition not_text (d : bytes) : bool := existsb (fun c => cls c =? cX) d.
+Definition starts_seq (d : bytes) : bool := match d with 48 :: _ => true | _ => false end.
+
+(* [d] is exactly one DER value, a SEQUENCE, and (kinds 1..6) the value of kind [k] *)
+Definition der_of_kind (k : nat) (d : bytes) : bool :=
+  is_asn1 d && starts_seq d && not_text d && bytes_ok d &&
+  match k with
+  | O => true
+  | _ => match schema_of k with Some s => accepts s d && side_cond k d | None => false end
+  end.
+
+(* crypto/x509.ParseCertificate accepts the certificates and nothing else among these objects *)
+Definition cert_oracle_ok (L : lib) (k : nat) (d : bytes) : bool :=
+  match k, l_cert L d with
+  | O, Ok _ => true
+  | S _, Err _ => true
+  | _, _ => false
+  end.
+
 (* ================= the dispatcher instantiated with these routes ================= *)
 Section Routes.
   Variable L : lib.
@@ -485,6 +530,74 @@ Section Routes.
     end.
 End Routes.
 
+(* ================= what the routes need from the format table ================= *)
+(* boolean, re-checked on the regenerated table by an instance lemma (T1) *)
+Definition pattern_exact (p : bytes) : bool :=
+  negb (contains [42] p) && negb (has_prefix [42] p) && negb (has_suffix [42] p)
+  && bytes_eqb (trim_both 42 p) p && negb (bytes_eqb p [42]).
+Definition magic_avoids (c : N) (m : bytes) : bool :=
+  match m with x :: _ => negb (x =? c) | [] => false end.
+Definition no_sniffer (r : row) : bool := match r_sniffer r with [] => true | _ => false end.
+Definition sniffer_row (sn pa : bytes) (r : row) : bool :=
+  match r_patterns r, r_magics r with
+  | [], [] => bytes_eqb (r_sniffer r) sn && bytes_eqb (r_parser r) pa
+  | _, _ => false
+  end.
+Fixpoint drop_while {A} (f : A -> bool) (l : list A) : list A :=
+  match l with
+  | x :: r => if f x then drop_while f r else l
+  | [] => []
+  end.
+(* name patterns are exact names; no magic starts with '0' (raw DER SEQUENCE) or 'M' (its base64);
+   the first rows that have a sniffer are IsUUID, then IsBase64ASN1/Base64ASN1File, then IsASN1/ASN1File *)
+Definition routes_table_ok (t : list row) : bool :=
+  forallb (fun r => forallb pattern_exact (r_patterns r)) t
+  && forallb (fun r => forallb (magic_avoids 48) (r_magics r) && forallb (magic_avoids 77) (r_magics r)) t
+  && match drop_while no_sniffer t with
+     | r1 :: r2 :: r3 :: _ =>
+         sniffer_row (bs "IsUUID") (r_parser r1) r1
+         && sniffer_row (bs "IsBase64ASN1") (bs "Base64ASN1File") r2
+         && sniffer_row (bs "IsASN1") (bs "ASN1File") r3
+     | _ => false
+     end.
+(* the base name of [name] is one of the table's name patterns *)
+Definition reserved_in (t : list row) (name : bytes) : bool :=
+  match name with
+  | [] => false
+  | _ => existsb (fun r => existsb (bytes_eqb (basename name)) (r_patterns r)) t
+  end.
+
+(* ---- the PEM signature row ---- *)
+(* compare a magic with the known beginning [a] of a file: decided as soon as the magic ends
+   (Some true) or a byte differs (Some false); undecided (None) when [a] ends first *)
+Fixpoint prefix_decided (m a : bytes) : option bool :=
+  match m, a with
+  | [], _ => Some true
+  | _ :: _, [] => None
+  | x :: m', y :: a' => if x =? y then prefix_decided m' a' else Some false
+  end.
+Definition decided (b : bool) (o : option bool) : bool :=
+  match o with Some x => Bool.eqb x b | None => false end.
+Fixpoint take_while {A} (f : A -> bool) (l : list A) : list A :=
+  match l with
+  | x :: r => if f x then x :: take_while f r else []
+  | [] => []
+  end.
+Definition not_pem_row (r : row) : bool := negb (bytes_eqb (r_parser r) (bs "PEMFile")).
+(* the rows before the first PEMFile row are signature rows whose magics differ from the first
+   line of a PEM block with any of the given labels; the PEMFile row is a signature row with
+   a magic that is a prefix of that line *)
+Definition pem_table_ok (heads : list bytes) (t : list row) : bool :=
+  forallb is_sig_row (take_while not_pem_row t)
+  && forallb (fun x => forallb (fun m => forallb (fun a => decided false (prefix_decided m a)) heads) (r_magics x))
+             (take_while not_pem_row t)
+  && match drop_while not_pem_row t with
+     | r :: _ => is_sig_row r
+                 && existsb (fun m => forallb (fun a => decided true (prefix_decided m a)) heads) (r_magics r)
+     | [] => false
+     end
+  && no_wildcards t.
+
 (* ================= presentations ================= *)
 Definition eol (crlf : bool) : bytes := if crlf then [13; 10] else [10].
 
@@ -497,6 +610,8 @@ Definition pem_text (label d : bytes) (crlf : bool) (pre post : bytes) : bytes :
   pre ++ bs "-----BEGIN " ++ label ++ bs "-----" ++ eol crlf
       ++ wrap 64 crlf (encode Std d) ++ eol crlf
       ++ bs "-----END " ++ label ++ bs "-----" ++ eol crlf ++ post.
+
+Definition pem_head (label : bytes) : bytes := bs "-----BEGIN " ++ label ++ bs "-----".
 
 (* the object kinds of the property and their PEM labels *)
 Definition label_of (i : nat) : bytes :=
@@ -520,3 +635,5 @@ Fixpoint swap_rows (a b : bytes) (t : list row) : list row :=
   | [] => []
   end.
 Definition table_before : list row := swap_rows (bs "Base64ASN1File") (bs "ASN1File") table.
+
+Definition pem_heads : list bytes := map (fun k => pem_head (label_of k)) (seq 0 7).
